@@ -96,3 +96,23 @@ def nextSpec (ms : List Meth) (code : Nat) (k : Key) : SpecRes :=
 
 end
 end Ovld
+
+namespace Ovld
+
+/-- the key of a call: distinct slots, run-time types are plain classes -/
+def keyWF (k : Key) : Bool :=
+  (k.map (·.1)).eraseDups.length == k.length && k.all (fun e => e.2.isCls)
+
+/-- every entry declares each slot at most once -/
+def tableWF (ms : List Meth) : Bool :=
+  ms.all (fun m => (m.params.map (·.1)).eraseDups.length == m.params.length)
+
+/-- agreement between the table's answer and the documented rule (which candidates an ambiguity error lists
+    is not part of the rule) -/
+def specAgrees : Res Entry (List Nat) → SpecRes → Prop
+  | .ok (.meth id), .ran id' => id = id'
+  | .amb _, .ambiguous => True
+  | .noMethod, .noMethod => True
+  | _, _ => False
+
+end Ovld
